@@ -16,7 +16,7 @@ demo=meta["demo_cmd"].replace(f"/tmp/seed-out/{ID}/{N}",src)
 def demo_failed():
     rc,out=sh(demo)
     failed = rc!=0 or re.search(r'^(--- FAIL|FAIL|panic:)',out,re.M) is not None
-    ran = re.search(r'^(ok|--- FAIL|FAIL|PASS)',out,re.M) is not None or 'run.sh' in demo or rc!=0
+    ran = re.search(r'^(ok|--- FAIL|FAIL|PASS)',out,re.M) is not None or '.sh' in demo or rc!=0 or 'PASS' in out
     return failed,ran,out
 clean()
 rc,out=sh(f"git apply {src}/patch.diff")
